@@ -12,12 +12,14 @@ BOUNDS = dict(quick="roll, yaw in [-2pi, 2pi], |pitch| <= pi/2 - 1e-3, |R20| <= 
               thorough="same")
 ASSUMPTIONS = ["sin/cos/atan2/asin/acos by exact characterisation; fmod(x, 2pi) as x - 2 pi k with integer k",
                "double constants within 2 ulp of (p/q) pi (q <= 720) are read as that multiple of the real pi"]
-OUTSIDE = ["float instantiations (same formulae; rounding differs)", "gimbal-lock neighbourhood", "rounding of the trigonometric chain"]
+OUTSIDE = ["float rounding (the float instantiations are executed over the reals)", "gimbal-lock neighbourhood", "rounding of the trigonometric chain"]
 
 def entries(tier):
     return [Entry("c10_builders"), Entry("c10_proper"), Entry("c10_angles_roundtrip"), Entry("c10_rotation_roundtrip"),
             Entry("c10_quaternion_scale"), Entry("c10_planar"), Entry("c10_normalisers_d"), Entry("c10_polar"),
-            Entry("c10_spherical"), Entry("c10_spherical_inv")]
+            Entry("c10_spherical"), Entry("c10_spherical_inv"),
+            Entry("c10_angles_roundtrip_f", note="float instantiation (same formulae; type-dependent constants differ)"),
+            Entry("c10_rotation_roundtrip_f"), Entry("c10_normalisers_f"), Entry("c10_builders_f")]
 
 def tv_vectors(tier):
     out = []
